@@ -379,7 +379,7 @@ SrvMerge ==
              /\ cyc' = [cyc EXCEPT !.fresh = obj'.rv, !.rv = obj'.rv, !.ffins = obj'.fins]
              /\ pc' = "r1done"
              /\ gh' = [gh EXCEPT !.succ = IF r.closing /\ changed THEN [h \in H |-> 0] ELSE @,
-                                 !.blindwrite = @ \/ (changed /\ ~cyc.s.match)]
+                                 !.blindwrite = @ \/ (~cyc.s.match /\ (o2.prog # obj.prog \/ o2.lh # obj.lh))]
   /\ UNCHANGED <<bl, up, stopping, mem, wk, now, bud>>
   /\ UNCHANGED conf
 
@@ -491,6 +491,7 @@ FreshOrTimedOut == L.h # "none" => (L.ownrv = 0 \/ L.rv >= L.ownrv \/ CTimeout =
 \* C11: the retries limit bounds the recorded attempts; a handler is never invoked before its delay has elapsed
 RetriesBounded == \A h \in H : HC[h].retries # 0 => obj.prog[h].r <= HC[h].retries
 \* C15 (stealth): processing a view that no handler matches writes nothing but the withdrawal of the finalizer
+\* (together with which the framework's own touch marker may be cleared)
 Stealth == ~gh.blindwrite
 \* C06
 NeverEarly == ~gh.early
